@@ -12,6 +12,14 @@ CHECKS = {
   "note": "Trusts: Expected(script) as the reading of the property (400/408 checked for status+close only); the harness reference HTTP response parser; loopback timing assumptions (3 s silence = hang). Open deviations CrlfAfterBody and ReadAheadLost are attributed only when Dev={d} explains the log exactly.",
   "ref": "DESIGN.md section 5 C01",
  },
+ "C19": {
+  "bins": ["blacklist"], "specs": ["server"],
+  "level": "model_checking",
+  "technique": "TLA+ model of the blacklist decision points (accept-time condition, per-handler checks, cache) checked by TLC; TLC-generated decision vectors replayed against the real humphrey server binary with clients bound to chosen source addresses; recorded sessions trace-validated by TLC",
+  "text": "TLC explores the decision-point state machine (connection condition, file/directory/proxy/redirect handler checks, cache, two concurrent connections) against Decide(mode, list, peer, xff, route) with invariants, action and liveness properties, sensitivity configs for 10 deviations and 4 reachability witnesses; every TLC-enumerated row (mode x list x peer x X-Forwarded-For shape x route type x cache state) is sent to the real server binary built from the working tree on 127.0.0.1, ::1 and dual-stack ::, and random keep-alive sessions are validated by Trace_Blacklist.",
+  "note": "Trusts: Decide as the reading of the property (only GET to routed targets; a listed intermediate X-Forwarded-For entry may be 403 or served); Linux loopback source-address binding; a server hang is a tool error, not a violation.",
+  "ref": "DESIGN.md section 5 C19",
+ },
  "C05": {
   "bins": ["glob"], "specs": ["glob"],
   "level": "model_checking",
